@@ -236,6 +236,10 @@ func objectItemPrefixBasedEditRange(remainingRange hcl.Range, fileBytes []byte, 
 	roughEndByteOffset := bytes.IndexFunc(remainingBytes, func(r rune) bool {
 		return r == '\n' || r == '}'
 	})
+	if roughEndByteOffset < 0 {
+		// neither a newline nor a closing brace follows (truncated file)
+		roughEndByteOffset = len(remainingBytes)
+	}
 	// avoid editing over whitespace
 	trimmedRightBytes := bytes.TrimRightFunc(remainingBytes[:roughEndByteOffset], func(r rune) bool {
 		return unicode.IsSpace(r)
